@@ -82,25 +82,63 @@ class Mutant:
         self.name, self.pid, self.module, self.edits, self.runs = name, pid, module, edits, runs
 
 
-def apply_source(modname, src):
-    mod = importlib.import_module(modname)
-    code = compile(src, mod.__file__, "exec")
-    exec(code, mod.__dict__)
-    # names re-exported elsewhere (e.g. pydrobert.torch.data) keep pointing at the old
-    # objects: rebind them
-    import pydrobert.torch as pt
+def _functions_of(ns, modname):
+    """name -> plain function objects defined by the module (top level and in classes)."""
+    import inspect
 
-    for parent_name in ("pydrobert.torch.data", "pydrobert.torch.functional", "pydrobert.torch.modules", "pydrobert.torch.training", "pydrobert.torch.command_line"):
-        try:
-            parent = importlib.import_module(parent_name)
-        except Exception:
+    out = {}
+    for name, obj in list(ns.items()):
+        if inspect.isfunction(obj) and obj.__module__ == modname:
+            out[name] = obj
+        elif inspect.isclass(obj) and obj.__module__ == modname:
+            for attr, v in list(vars(obj).items()):
+                f = v
+                if isinstance(v, (staticmethod, classmethod)):
+                    f = v.__func__
+                elif isinstance(v, property):
+                    for tag, pf in (("fget", v.fget), ("fset", v.fset)):
+                        if inspect.isfunction(pf):
+                            out[f"{name}.{attr}.{tag}"] = pf
+                    continue
+                if inspect.isfunction(f):
+                    out[f"{name}.{attr}"] = f
+    return out
+
+
+def apply_source(modname, src):
+    """Swaps the code objects of the module's functions for those compiled from ``src``.
+
+    Classes and function objects keep their identity (other modules hold references to
+    them), only behaviour changes.  Returns the list of (function, old code, old
+    defaults) that were changed, for ``restore``."""
+    mod = importlib.import_module(modname)
+    ns = dict(mod.__dict__)
+    import warnings
+
+    with warnings.catch_warnings():
+        warnings.simplefilter("ignore")
+        exec(compile(src, mod.__file__, "exec"), ns)
+    old = _functions_of(mod.__dict__, modname)
+    new = _functions_of(ns, modname)
+    changed = []
+    for name, nf in new.items():
+        of = old.get(name)
+        if of is None or of is nf:
             continue
-        if parent is mod:
-            continue
-        for k, v in list(vars(parent).items()):
-            new = mod.__dict__.get(k)
-            if new is not None and new is not v and getattr(v, "__module__", None) == modname and callable(v):
-                setattr(parent, k, new)
+        oc, nc = of.__code__, nf.__code__
+        if oc.co_code != nc.co_code or oc.co_consts != nc.co_consts or oc.co_names != nc.co_names or oc.co_varnames != nc.co_varnames:
+            if oc.co_freevars != nc.co_freevars:
+                raise HarnessError(f"mutant changes closure of {name}")
+            changed.append((of, oc, of.__defaults__))
+            of.__code__ = nc
+            of.__defaults__ = nf.__defaults__
+    return changed
+
+
+def restore(changed):
+    for f, code, defaults in changed:
+        f.__code__ = code
+        f.__defaults__ = defaults
 
 
 def sensitivity(seed, only=None):
@@ -129,13 +167,18 @@ def sensitivity(seed, only=None):
             continue
         prop = runner.load_prop(m.pid)
         n = m.runs or max(40, prop.BUDGET["quick"] // 4)
+        changed = []
         try:
-            apply_source(m.module, src)
+            changed = apply_source(m.module, src)
             if hasattr(prop, "reset_caches"):
                 prop.reset_caches()
+            if not changed:
+                results.append({"mutant": m.name, "property": m.pid, "status": "edit-changes-no-function"})
+                print(f"sensitivity {m.name}: edit changes no plain function (decorated?)")
+                continue
             merged, _, wall = runner.run_batch(m.pid, "quick", seed, n, min(16, os.cpu_count() or 1), wall_cap=300)
         finally:
-            apply_source(m.module, orig)
+            restore(changed)
             if hasattr(prop, "reset_caches"):
                 prop.reset_caches()
         unknown = [f for f in merged["failures"] if runner.match_known(known, m.pid, f["violations"][0]) is None]
